@@ -447,13 +447,13 @@ func c13Menu() []c13op {
 	add("SqrtPrecomp / GetPointFromX", func(c *ipa.IPAConfig, seed int64) ([]interface{}, func() string, func() string) {
 		v := fpFromBig(bi(1234567 * 1234567))
 		v2 := fpFromBig(bi(7654321 * 7654321))
-		x := fpFromBig(bi(4))
+		x := fpFromBig(bi(3)) // the abscissa of a curve point
 		return []interface{}{&v, &v2, &x}, func() string {
 			// results are kept by the caller across later calls
 			r := fp.SqrtPrecomp(&v)
 			p := bandersnatch.GetPointFromX(&x, true)
 			r2 := fp.SqrtPrecomp(&v2)
-			p2 := bandersnatch.GetPointFromX(&v2, false)
+			p2 := bandersnatch.GetPointFromX(&x, false)
 			var sq, sq2 fp.Element
 			if r != nil {
 				sq.Square(r)
